@@ -70,6 +70,7 @@ ObservedHandle(o) ==
        /\ Chk("ticket", ticket'.seq = o.ticket.seq /\ ticket'.cap = o.ticket.cap)
        /\ Chk("capacity", o.stats.cap = Capacity')
        /\ Chk("stats.count", o.stats.frame_count = o.count)
+       /\ Chk("ro.file", o.ro => o.ro_unchanged)       \* C18: a read-only handle never changes the file
 
 Observed(o) ==
   IF exists' = "broken"
@@ -156,10 +157,10 @@ TDelete == /\ IsEvent("delete")
 
 TVacuum == /\ IsEvent("vacuum")
            /\ LET nl == NewLens IN
-              \* the commit's Lex record is checkpointed (sequence <= logged wal_seq), the rebuild's is not
-              LET nc == Cardinality({i \in 1..Len(Ev.obs.file.chain) :
-                                      Ev.obs.file.chain[i][1] > wseq /\ Ev.obs.file.chain[i][1] <= Ev.obs.file.wal_seq}) IN
-              Vacuum(IF nc > 0 THEN NthOrZero(nl, 1) ELSE 0, NthOrZero(nl, nc + 1), PayEnd(Ev.obs))
+              \* up to two Lex-batch records: the one of vacuum's leading commit, the one of its index rebuild
+              \/ (Len(nl) = 0 /\ Vacuum(0, 0, PayEnd(Ev.obs)))
+              \/ (Len(nl) = 1 /\ (Vacuum(nl[1], 0, PayEnd(Ev.obs)) \/ Vacuum(0, nl[1], PayEnd(Ev.obs))))
+              \/ (Len(nl) >= 2 /\ Vacuum(nl[1], nl[2], PayEnd(Ev.obs)))
            /\ Matches /\ Observed(Ev.obs)
 
 TTicket == /\ IsEvent("ticket")
@@ -189,11 +190,33 @@ TByUri ==
        ELSE ResOk /\ Ev.res.val.id = id /\ Ev.res.val.st = Visible[id + 1].st
   /\ Observed(Ev.obs)
 
+\* C14: vector search finds, for every embedding ever used, exactly the active frames carrying it
+TVecSet ==
+  /\ IsEvent("vecset") /\ Read("vecset")
+  /\ LET anyEmb == \E i \in 1..Len(Visible) : Visible[i].st = "active" /\ Visible[i].emb > 0 IN
+     IF ~ResOk THEN Chk("vecset", ~anyEmb /\ ResErr("VecNotEnabled"))      \* no vector index yet
+     ELSE Chk("vecset", \A k \in 1..Len(Ev.res.val) :
+                LET r == Ev.res.val[k]
+                    want == {i - 1 : i \in {j \in 1..Len(Visible) : Visible[j].st = "active" /\ Visible[j].emb = r.emb}} IN
+                {r.frames[q] : q \in 1..Len(r.frames)} = want)
+  /\ Observed(Ev.obs)
+
 \* verify (static, no handle open): must pass on anything the model calls healthy
 TVerify == /\ IsEvent("verify")
            /\ UNCHANGED vars
-           /\ ResOk /\ (pend = <<>> => Ev.res.val = "Passed")
+           /\ Chk("verify", ResOk /\ (pend = <<>> => Ev.res.val = "Passed"))
            /\ ObservedFile(Ev.obs)
+
+Flag(a, f) == Has(a, f) /\ a[f]
+TDoctor == /\ IsEvent("doctor")
+           /\ ResOk
+           /\ \/ Doctor(Flag(Ev.args, "vacuum"), Flag(Ev.args, "time") \/ Flag(Ev.args, "lex") \/ Flag(Ev.args, "vec"),
+                         Flag(Ev.args, "dry_run"), Ev.res.val.status)
+              \/ (Debug /\ PrintT(<<"MISMATCH", l, "result">>)
+                  /\ Doctor(Flag(Ev.args, "vacuum"), Flag(Ev.args, "time") \/ Flag(Ev.args, "lex") \/ Flag(Ev.args, "vec"),
+                            Flag(Ev.args, "dry_run"), IF Flag(Ev.args, "dry_run") THEN "PlanOnly" ELSE "Healed"))
+           /\ Chk("doctor.verify", ResOk /\ last'.val = "Healed" => Ev.res.val.verify = "Passed")   \* C21: leaves a file that verifies
+           /\ ObservedFile(Ev.obs) /\ Chk("dir", Ev.obs.dir = <<"m.mv2">>)
 
 \* deviation D01 damaged the file: nothing further in this run is predictable; the deviation is
 \* reported (so that it is matched against the known findings) and the run is skipped
@@ -202,7 +225,7 @@ TBroken == /\ exists = "broken" /\ l <= Len(Rec) /\ Ev.ev # "reset" /\ l' = l + 
 
 TraceNext == \/ TReset \/ TCreate \/ TCommit \/ TOpen \/ TOpenRO \/ TClose \/ TAbandon
              \/ TPut \/ TUpdate \/ TDelete \/ TVacuum \/ TTicket \/ TBeginBatch \/ TEndBatch
-             \/ TTimeline \/ TByUri \/ TVerify
+             \/ TTimeline \/ TByUri \/ TVecSet \/ TVerify \/ TDoctor
              \/ TBroken
 
 TraceSpec == TraceInit /\ [][TraceNext]_tvars
